@@ -111,7 +111,7 @@ class Ctx:
         needed = closure({m for m, _ in thms})
         failed = set(lb.get("failed", []))
         bad_mods = sorted(needed & failed)
-        if not lb["ok"] and not os.path.exists(lb.get("driver", "")):
+        if not lb.get("driver_ok", False):
             self.p_fail.append(dict(what="model does not build", detail=lb["log"][-2500:]))
         if bad_mods:
             # which theorem broke? take the error lines
@@ -372,10 +372,376 @@ def c04(ctx):
 RULES["C04"] = "distinct domains not rejected as empty; exhaustive over {letter,digit,-,.,_,!} to length 7 (8 thorough), every label length 0-70 in first/middle/last position, totals 236-263 with 0-2 trailing dots, every byte value in 6 contexts, random label mixes; default and LABELS_ALLOW_UNDERSCORE builds"
 
 
+
+def fields(line):
+    return line.split(" ")
+
+
+def table_names(ctx):
+    """TLD names of the generated table (lower-case A-labels), read from the generated Lean file"""
+    txt = open(os.path.join(LEAN, "Eav/Gen/TldTable.lean")).read()
+    rows = re.findall(r"\(\[([0-9, ]+)\], (\d+), (\d+)\)", txt)
+    return [(bytes(int(x) for x in r[0].split(",")), int(r[1]), int(r[2])) for r in rows]
+
+
+# ===================================================================== C01
+def c01(ctx):
+    strs = list(dict.fromkeys(gen.email_strings(ctx.tier, ctx.rng)))
+    strs = [s for s in strs if 0 not in s]
+    for m in MODES:
+        for t in (0, 1):
+            eops = ["E %d %d %s" % (m, t, hx(s)) for s in strs]
+            cops = ["C %d %d %s" % (m, t, hx(s)) for s in strs]
+            e = ctx.K("email%d" % m, "default", eops, nontrivial=lambda op, ln: fields(ln)[1] not in ("-3", "-16", "-5", "-4"))
+            c = ctx.K("compose%d" % m, "default", cops)
+            for s, el, cl in zip(strs, e, c):
+                ef, cf = fields(el), fields(cl)
+                if ef[1:3] != cf[1:3]:
+                    ctx.S("high-level decision/error code differs from the composition of the public per-part validators",
+                          op="E %d %d %s" % (m, t, hx(s)), input=repr(s), high_level=el, composed=cl)
+                # always rejected
+                if (len(s) == 0 or b"@" not in s or s.startswith(b"@") or s.endswith(b"@")) and ef[1] == "0":
+                    ctx.S("empty string / missing '@' / empty local part / empty domain accepted", op="E %d %d %s" % (m, t, hx(s)), input=repr(s), impl=el)
+                if t == 0 and b"@" in s:
+                    l = s[:s.rindex(b"@")]
+                    if len(l) > 64 and ef[1] == "0":
+                        ctx.S("local part longer than 64 octets accepted", op="E %d %d %s" % (m, t, hx(s)), input=repr(s), impl=el)
+            # mode wiring: eav_setup with rfc = m must apply m's rules
+            pops = ["P %d %d %d %s" % (m, t, 2047 * 2, hx(s)) for s in strs[:: (3 if ctx.tier == "quick" else 1)]]
+            pl = ctx.K("api%d" % m, "default", pops)
+            emap = dict(zip(strs, e))
+            for s, pln in zip(strs[:: (3 if ctx.tier == "quick" else 1)], pl):
+                pf, ef = fields(pln), fields(emap[s])
+                if pf[4:] != ef[1:]:
+                    ctx.S("eav_is_email after eav_setup(rfc=%d) does not apply mode %d's rules" % (m, m), op="P %d %d %d %s" % (m, t, 4094, hx(s)), input=repr(s), api=pln, direct=emap[s])
+RULES["C01"] = "distinct (mode, tld_check, address) triples that pass basic_email_check (not empty, has '@', non-empty halves, local part <= 64); exhaustive over a 12-class alphabet to length 4 (5 thorough), 18 local parts x 29 domains, local length 60-69 x 0-3 '@', random"
+
+
+# ===================================================================== C05
+def c05(ctx):
+    doms = list(dict.fromkeys(gen.literal_domains(ctx.tier, ctx.rng)))
+    doms = [d for d in doms if 0 not in d]
+    sp = ctx.spec(["sI %s" % hx(d) for d in doms])
+    for m in MODES:
+        ops = ["E %d 0 %s" % (m, hx(b"a@" + d)) for d in doms]
+        c = ctx.K("literal%d" % m, "default", ops, project=lambda op, ln: " ".join(fields(ln)[:1] + [("acc" if fields(ln)[1] == "0" else "rej")] + fields(ln)[3:4]),
+                  nontrivial=lambda op, ln: True)
+        for d, cl, sl in zip(doms, c, sp):
+            if not d.startswith(b"["):
+                continue
+            f = fields(cl)
+            acc = f[1] == "0"
+            up, lo, isv4 = sl[3] == "1", sl[4] == "1", sl[5] == "1"
+            op = "E %d 0 %s" % (m, hx(b"a@" + d))
+            if acc and not up:
+                ctx.S("address literal accepted that is not exactly '[' IPv4 ']' or '[' [IPv6:] RFC-4291-address ']'", op=op, input=repr(d), impl=cl)
+            if lo and not acc:
+                ctx.S("RFC 5321 address literal rejected", op=op, input=repr(d), impl=cl)
+            if acc and up:
+                if (f[3] == "100") != isv4 or (f[3] == "010") != (not isv4):
+                    ctx.S("is_ipv4/is_ipv6 does not report the family of the address present", op=op, input=repr(d), impl=cl)
+    # the per-part functions themselves (model correspondence; ']' and NUL after the address)
+    a4 = list(dict.fromkeys(gen.ipv4_strings(ctx.tier, ctx.rng)))
+    a6 = list(dict.fromkeys(gen.ipv6_shapes(ctx.tier, ctx.rng)))
+    for after in (b"]\0", b"\0"):
+        ctx.K("ipv4", "default", ["4 %s %s" % (hx(a), hx(after)) for a in a4 if 0 not in a])
+        ctx.K("ipv6", "default", ["6 %s %s" % (hx(a), hx(after)) for a in a6 if 0 not in a])
+        ctx.K("ipaddr", "default", ["A %s %s" % (hx(a), hx(after)) for a in (a4[:2000] + a6[:4000]) if 0 not in a])
+RULES["C05"] = "distinct bracketed domains / addresses; octets 0-300 in each position, exhaustive over {1,0,.,a,:} and {1,a,g,:,.}, IPv6 shapes (0-8 groups either side of '::', widths, dotted-quad tails), 11 tags x 34 addresses x 7 trailers, malformed brackets; four modes"
+
+
+# ===================================================================== C07
+def c07(ctx):
+    tbl = table_names(ctx)
+    names = [r[0] for r in tbl]
+    labels = list(dict.fromkeys(gen.tld_labels(names, ctx.tier, ctx.rng)))
+    ctx.K("is_tld", "default", ["T %s" % hx(l) for l in labels])
+    spc = ctx.spec(["sT %s" % hx(l) for l in labels])
+    spr = ctx.spec(["sS %s" % hx(b"x." + l) for l in labels])
+    pres = [b"x."] if ctx.tier == "quick" else [b"x.", b"a.b.", b"a.b.c.", b"com.org.net.x."]
+    for m in MODES:
+        for pre in pres:
+            sub = labels if (m == 5321 or ctx.tier != "quick") else labels[::4]
+            ops = ["E %d 1 %s" % (m, hx(b"a@" + pre + l)) for l in sub]
+            c = ctx.K("tld%d" % m, "default", ops, nontrivial=lambda op, ln: True)
+            cls = dict(zip(labels, spc)); res = dict(zip(labels, spr))
+            for l, cl in zip(sub, c):
+                f = fields(cl)
+                if f[1] in ("-2",):
+                    continue                      # IDN library refused the label (6531): C10
+                if int(f[1]) < 0 and int(f[1]) not in (-26, -23):
+                    continue                      # not a valid host name
+                if res[l] == "sS 1":
+                    continue                      # reserved: C09
+                want = cls[l].split(" ")[1]
+                if f[1] != want:
+                    ctx.S("TLD class differs from the shipped table (whole last label, case-insensitive)", op="E %d 1 %s" % (m, hx(b"a@" + pre + l)), label=repr(l), impl=cl, table=want)
+        # single label: not fully qualified
+        ops = ["E %d 1 %s" % (m, hx(b"a@" + l)) for l in labels[:3000]]
+        c = ctx.K("tld-single%d" % m, "default", ops)
+        spr1 = ctx.spec(["sS %s" % hx(l) for l in labels[:3000]])
+        for l, cl, r in zip(labels[:3000], c, spr1):
+            f = fields(cl)
+            if r == "sS 1" or f[1] == "-2" or (int(f[1]) < 0 and int(f[1]) not in (-26, -23)):
+                continue
+            if f[1] != "-23":
+                ctx.S("single-label non-reserved domain not rejected as not fully qualified", op="E %d 1 %s" % (m, hx(b"a@" + l)), impl=cl)
+RULES["C07"] = "distinct (mode, domain) pairs; all 1591 table entries in 3 case variants, every proper prefix, one-character extensions, substitutions, random unlisted labels, 1-4 preceding labels, four modes"
+
+
+# ===================================================================== C08
+def c08(ctx):
+    ops = ["Y %d %d" % (k, rc) for rc in range(-35, 13) for k in range(0, 2048)]
+    c = ctx.K("policy", "default", ops, nontrivial=lambda op, ln: True)
+    for op, cl in zip(ops, c):
+        _, k, rc = op.split(" "); k = int(k); rc = int(rc)
+        f = fields(cl)
+        if 1 <= rc <= 9:
+            want = 1 if (k & (1 << (rc + 1))) else 0
+            if f[1] != str(want):
+                ctx.S("acceptance is not 'the bit of the TLD class is set in allow_tld'", op=op, impl=cl)
+            if want == 0 and f[2] != str(26 + rc):
+                ctx.S("refused TLD class reported with the wrong error code", op=op, impl=cl)
+        elif rc < 0 and f[1] != "0":
+            ctx.S("negative result accepted under some mask", op=op, impl=cl)
+        elif rc == 0 and f[1:3] != ["1", "0"]:
+            ctx.S("result 0 not accepted", op=op, impl=cl)
+    # real addresses: literals are not subject to the policy; tld_check off ignores mask, TLD and FQDN
+    addrs = [b"a@b.com", b"a@b.ru", b"a@nic.aero", b"a@x.arpa", b"a@x.test", b"a@x.abarth", b"a@example.com", b"a@localhost", b"a@b", b"a@b.zz",
+             b"a@[1.2.3.4]", b"a@[IPv6:::1]", "a@почта.рф".encode(), b"a@x.xn--p1ai", b"a@x.biz", b"a@x.edu", b"a@x.xn--kgbechtv"]
+    masks = range(0, 2048, 1 if ctx.tier != "quick" else 37)
+    for m in MODES:
+        res = {}
+        for t in (0, 1):
+            ops = ["P %d %d %d %s" % (m, t, k, hx(a)) for a in addrs for k in masks]
+            c = ctx.K("policy-api%d" % m, "default", ops, nontrivial=lambda op, ln: True)
+            for op, cl in zip(ops, c):
+                _, _, _, k, a = op.split(" ")
+                res.setdefault((t, a), set()).add((fields(cl)[1], cl))
+                f = fields(cl)
+                rc = int(f[4])
+                k = int(k)
+                if t == 1 and 1 <= rc <= 9 and (f[1] == "1") != bool(k & (1 << (rc + 1))):
+                    ctx.S("address accepted/refused against its class bit", op=op, impl=cl)
+        for (t, a), outs in res.items():
+            if t == 0 and len(outs) != 1:
+                ctx.S("with tld_check off the outcome depends on allow_tld", op="P %d 0 * %s" % (m, a), outcomes=sorted(x[1] for x in outs)[:4])
+            if b"5b" == bytes.fromhex(a)[2:3].hex().encode() and len({x[0] for x in outs}) != 1:
+                ctx.S("address literal subject to the TLD policy", op="P %d %d * %s" % (m, t, a), outcomes=sorted(x[1] for x in outs)[:4])
+RULES["C08"] = "all 2^11 masks x every result code -35..12 through a caller-installed callback (complete), plus 17 real addresses x masks x four modes x tld on/off"
+
+
+# ===================================================================== C09
+def c09(ctx):
+    doms = list(dict.fromkeys(gen.special_domains(ctx.tier, ctx.rng)))
+    c = ctx.K("special", "default", ["S %s" % hx(d) for d in doms], nontrivial=lambda op, ln: True)
+    sp = ctx.spec(["sS %s" % hx(d) for d in doms])
+    sh = ctx.spec(["sD 0 %s" % hx(d) for d in doms])
+    for d, cl, sl, hl in zip(doms, c, sp, sh):
+        if hl != "sD 1" or d.endswith(b"."):
+            continue
+        if (cl == "S 1") != (sl == "sS 1"):
+            ctx.S("reserved-domain recognition differs from RFC 2606/6761/7686 on whole labels", op="S %s" % hx(d), input=repr(d), impl=cl, spec=sl)
+    for m in MODES:
+        sub = doms if ctx.tier != "quick" else doms[::3]
+        ops = ["E %d 1 %s" % (m, hx(b"a@" + d)) for d in sub]
+        c = ctx.K("special-email%d" % m, "default", ops)
+        spm = dict(zip(doms, sp)); shm = dict(zip(doms, sh))
+        for d, cl in zip(sub, c):
+            if shm[d] != "sD 1" or d.endswith(b"."):
+                continue
+            f = fields(cl)
+            if f[1] == "-2":
+                continue
+            if (f[1] == "8") != (spm[d] == "sS 1"):
+                ctx.S("address on a reserved domain not classified 'special' (or a non-reserved one classified so)", op="E %d 1 %s" % (m, hx(b"a@" + d)), input=repr(d), impl=cl, spec=spm[d])
+RULES["C09"] = "distinct domains: each reserved suffix and each one-edit neighbour, case patterns, preceded by 0-3 labels of lengths 1-63 (quick: 1-11, 62, 63); direct is_special_domain calls and whole addresses in four modes"
+
+
+# ===================================================================== C12
+def c12(ctx):
+    strs = [s for s in dict.fromkeys(gen.email_strings(ctx.tier, ctx.rng)) if 0 not in s]
+    plain = []
+    for s in strs:
+        if all(b < 128 for b in s) and b"@" in s:
+            l = s[:s.rindex(b"@")]
+            if b'"' not in l and b"\\" not in l:
+                plain.append(s)
+    # local parts without quotes/backslashes from the C02 corpus, on two domains
+    for l in gen.local_strings("quick", ctx.rng)[:: (40 if ctx.tier == "quick" else 4)]:
+        if all(b < 128 for b in l) and b'"' not in l and b"\\" not in l and b"@" not in l and 0 not in l:
+            plain.append(l + b"@b.com"); plain.append(l + b"@[1.2.3.4]")
+    plain = list(dict.fromkeys(plain))
+    for t in (0, 1):
+        res = {}
+        for m in MODES:
+            res[m] = ctx.K("plain%d" % m, "default", ["E %d %d %s" % (m, t, hx(s)) for s in plain], nontrivial=lambda op, ln: fields(ln)[1] not in ("-3", "-16"))
+        for i, s in enumerate(plain):
+            r = {m: fields(res[m][i]) for m in MODES}
+            for m in (822, 5322):
+                if r[m][1] != r[5321][1]:
+                    ctx.S("ASCII modes disagree (decision or code) on a quote-free pure-ASCII address", op="E %d %d %s" % (m, t, hx(s)), input=repr(s), got={k: v[1] for k, v in r.items()})
+            if r[6531][1] != r[5321][1] and r[6531][1] != "-2":
+                ctx.S("mode 6531 disagrees with the ASCII modes on a quote-free pure-ASCII address (and not by an IDN error)", op="E 6531 %d %s" % (t, hx(s)), input=repr(s), got={k: v[1] for k, v in r.items()})
+        # inclusion 5321 ⊆ 822 and shared domain verdict, on all addresses
+        res = {m: ctx.K("all%d" % m, "default", ["E %d %d %s" % (m, t, hx(s)) for s in strs]) for m in (822, 5321, 5322)}
+        for i, s in enumerate(strs):
+            r = {m: fields(res[m][i]) for m in res}
+            acc = lambda f: f[1] == "0" or int(f[1]) > 0
+            if acc(r[5321]) and not acc(r[822]):
+                ctx.S("address accepted in mode 5321 but rejected in mode 822", op="E 822 %d %s" % (t, hx(s)), input=repr(s), m5321=res[5321][i], m822=res[822][i])
+        # fixed domain part, local part valid in all modes: same verdict, class and flags
+        doms = sorted({s[s.rindex(b"@") + 1:] for s in strs if b"@" in s})
+        for m in (822, 5321, 5322):
+            res[m] = ctx.K("dom%d" % m, "default", ["E %d %d %s" % (m, t, hx(b"a@" + d)) for d in doms])
+        for i, d in enumerate(doms):
+            if not (res[822][i][2:] == res[5321][i][2:] == res[5322][i][2:]):
+                ctx.S("ASCII modes report different domain verdict/class/flags for the same domain", op="E 822 %d %s" % (t, hx(b"a@" + d)), input=repr(d), got=[res[m][i] for m in (822, 5321, 5322)])
+RULES["C12"] = "distinct addresses passing basic_email_check; the C01 corpus restricted to pure-ASCII quote-free local parts plus the C02 corpus on two domains, in all four modes and tld on/off, compared pairwise"
+
+
+# ===================================================================== C15 / C16 share a corpus
+def diag_corpus(ctx):
+    strs = [s for s in dict.fromkeys(gen.email_strings(ctx.tier, ctx.rng)) if 0 not in s]
+    extra = []
+    for l in gen.local_strings("quick", ctx.rng)[:: (25 if ctx.tier == "quick" else 3)]:
+        if b"@" not in l and 0 not in l:
+            extra.append(l + b"@b.com")
+    for d in gen.domain_strings("quick", ctx.rng)[:: (60 if ctx.tier == "quick" else 5)]:
+        if b"@" not in d and 0 not in d:
+            extra.append(b"a@" + d)
+    for d in gen.literal_domains("quick", ctx.rng)[:: (8 if ctx.tier == "quick" else 1)]:
+        if 0 not in d:
+            extra.append(b"a@" + d)
+    tbl = table_names(ctx)
+    for r in tbl[:: (15 if ctx.tier == "quick" else 1)]:
+        extra.append(b"a@x." + r[0])
+    for d in gen.special_domains("quick", ctx.rng)[::50]:
+        extra.append(b"a@" + d)
+    for u in gen.IDN_SAMPLES:
+        extra.append(b"a@" + u.encode())
+    return list(dict.fromkeys(strs + extra))
+
+
+def split_addr(s):
+    if b"@" not in s:
+        return None, None
+    i = s.rindex(b"@")
+    return s[:i], s[i + 1:]
+
+
+def c15(ctx):
+    strs = diag_corpus(ctx)
+    tbl = {r[0] for r in table_names(ctx)}
+    seen_codes = set()
+    for m in MODES:
+        lm = {822: "822", 5321: "5321", 5322: "5322", 6531: "6531"}[m]
+        for t in (0, 1):
+            ops = ["P %d %d %d %s" % (m, t, 8 | 16 | 32 | 64 | 128 | 512, hx(s)) for s in strs]
+            c = ctx.K("diag%d" % m, "default", ops, nontrivial=lambda op, ln: fields(ln)[2] not in ("0", "3", "16"))
+            locs = [split_addr(s)[0] or b"" for s in strs]
+            spl = ctx.spec(["sL %s %s" % (lm, hx(l)) for l in locs])
+            for s, cl, sl in zip(strs, c, spl):
+                f = fields(cl)
+                ret, ec, msg, rc = f[1], int(f[2]), f[3], int(f[4])
+                seen_codes.add(ec)
+                op = "P %d %d %d %s" % (m, t, 760, hx(s))
+                L, D = split_addr(s)
+                bad = None
+                if (ret == "1") != (ec == 0):
+                    bad = "eav_is_email returns 1 although an error is recorded (or 0 with 'no error')"
+                elif ret == "0" and msg in ("NULL", "m0"):
+                    bad = "rejection without a message"
+                elif ec != 2 and msg != "m%d" % ec:
+                    bad = "eav_errstr does not return the message of the recorded code"
+                elif ec == 2 and msg != "idn:#%s" % f[5]:
+                    bad = "IDN failure does not carry the IDN library's message for the returned code"
+                elif rc < 0 and ec != -rc:
+                    bad = "error code is not the code returned by the failing validator"
+                elif ec == 3 and len(s) != 0: bad = "'empty email address' for a non-empty input"
+                elif ec == 16 and not (L is None or D == b""): bad = "'domain is empty' although a domain is present"
+                elif ec == 4 and L != b"": bad = "'local-part is empty' although it is not"
+                elif ec == 5 and not (L is not None and len(L) > 64): bad = "'local-part is too long' at 64 octets or fewer"
+                elif ec == 11 and b".." not in (L or b""): bad = "'too many dots' without '..' in the local part"
+                elif ec in (6, 7, 8, 9, 10, 11, 12, 13, 14, 15) and sl == "sL 1": bad = "local-part error on a local part that is valid for the mode"
+                elif ec == 6 and m != 6531 and all(b < 128 for b in (L or b"")): bad = "'non-ascii characters' on a pure-ASCII local part"
+                elif ec == 6 and m == 6531 and all(b < 128 for b in (L or b"")): bad = "'non-ascii characters' on a pure-ASCII local part"
+                elif ec == 8 and not any(b < 32 or b == 127 for b in (L or b"")): bad = "'control characters' without a control character"
+                elif ec == 9 and b'"' not in (L or b""): bad = "'misplaced double quote' without a double quote"
+                elif ec == 10 and b'"' not in (L or b""): bad = "'open double quote' without a double quote"
+                elif ec == 12 and b"." not in (L or b""): bad = "'misplaced dot' without a dot"
+                elif ec == 25 and D is not None and b"]" in D: bad = "'unpaired bracket' although a closing bracket is present"
+                elif ec in (24, 25) and not (D or b"").startswith(b"["): bad = "ip-addr error on a domain that does not start with '['"
+                elif ec == 23 and m != 6531 and b"." in (D or b"").rstrip(b"."): bad = "'not FQDN' on a multi-label domain"
+                elif ec == 26 and m != 6531 and D and not D.endswith(b".") and D.rsplit(b".", 1)[-1].lower() in tbl: bad = "'invalid TLD' although the last label is in the table"
+                elif ec == 21 and m != 6531 and len(D or b"") < 254: bad = "'domain is too long' below the limit"
+                elif ec == 22 and m != 6531 and not all(b in b"0123456789." for b in (D or b"")): bad = "'all-numeric' on a domain with other characters"
+                elif ec == 17 and m != 6531 and not any(len(x) > 63 for x in (D or b"").split(b".")): bad = "'label is too long' without a label above 63"
+                if bad:
+                    ctx.S(bad, op=op, input=repr(s), impl=cl)
+    # eav_setup: 0 for the four modes, EEAV_INVALID_RFC otherwise, and errstr says so
+    for v in [822, 5321, 5322, 6531, -1, 4, 5, 7, 100, 2147483647, -2147483648]:
+        op = "H i;r%d;s;m;f" % v
+        c = ctx.K("setup", "default", [op], nontrivial=lambda op, ln: True)[0]
+        parts = c[2:].split(";")
+        valid = v in (822, 5321, 5322, 6531)
+        if valid and parts[2] != "s0":
+            ctx.S("eav_setup fails for a defined mode", op=op, impl=c)
+        if not valid and (parts[2] != "s1" or parts[3] != "mm1"):
+            ctx.S("eav_setup with an undefined mode: wrong return code or eav_errstr does not report it", op=op, impl=c)
+    ctx.extra_cov["error_codes_produced"] = sorted(seen_codes)
+    missing = sorted(set(range(0, 36)) - seen_codes - {1})
+    ctx.extra_cov["error_codes_not_produced"] = missing
+RULES["C15"] = "distinct (mode, tld, address) triples rejected by something other than the empty/missing-domain checks; corpora of C01-C10 in four modes; every produced code checked against its predicate"
+
+
+def c16(ctx):
+    strs = diag_corpus(ctx)
+    spi = dict(zip(strs, ctx.spec(["sI %s" % hx(split_addr(s)[1] or b"") for s in strs])))
+    for v in ("default", "extra"):
+        for m in MODES:
+            for t in (0, 1):
+                ops = ["E %d %d %s" % (m, t, hx(s)) for s in strs]
+                c = ctx.K("result%d" % m, v, ops, nontrivial=lambda op, ln: fields(ln)[1] not in ("-3", "-16", "-5", "-4"))
+                for s, cl in zip(strs, c):
+                    f = fields(cl)
+                    rc, flags = int(f[1]), f[3]
+                    L, D = split_addr(s)
+                    op = "E %d %d %s" % (m, t, hx(s))
+                    bad = None
+                    accepted_syntax = rc >= 0 or (-rc) in (23, 26)        # both halves syntactically valid
+                    if flags.count("1") > 1: bad = "more than one of is_ipv4/is_ipv6/is_domain set"
+                    elif rc >= 0 and flags.count("1") != 1: bad = "accepted address without exactly one form flag"
+                    elif rc >= 0 and D.startswith(b"[") and flags[2] == "1": bad = "address literal reported as host name"
+                    elif rc >= 0 and not D.startswith(b"[") and flags != "001": bad = "host-name domain not reported as is_domain"
+                    elif rc >= 0 and D.startswith(b"[") and ((flags == "100") != (spi[s][5] == "1")): bad = "literal family flag does not match the address"
+                    elif rc < 0 and (-rc) not in (23, 26) and flags != "000": bad = "flag set although the address is syntactically invalid"
+                    elif t == 0 and rc > 0: bad = "TLD class reported with TLD checking off"
+                    elif rc > 9: bad = "result code above the TLD classes"
+                    if v == "extra" and not bad:
+                        lp, dm = f[4], f[5]
+                        if rc >= 0:
+                            want_d = D[1:-1] if D.startswith(b"[") else D
+                            if lp != "=" + hx(L) or dm != "=" + hx(want_d):
+                                bad = "EAV_EXTRA lpart/domain do not reproduce the halves of the accepted address"
+                        elif (-rc) not in (23, 26) and (lp != "NULL" or dm != "NULL"):
+                            bad = "EAV_EXTRA lpart/domain not NULL for a syntactically invalid address"
+                    if bad:
+                        ctx.S(bad, op=op, variant=v, input=repr(s), impl=cl)
+RULES["C16"] = "distinct (mode, tld, address) triples passing basic_email_check; corpora of C01-C10, four modes, tld on/off, builds with and without EAV_EXTRA"
+
 PROPS = collections.OrderedDict()
+PROPS["C01"] = c01
 PROPS["C02"] = c02
 PROPS["C03"] = c03
 PROPS["C04"] = c04
+PROPS["C05"] = c05
+PROPS["C07"] = c07
+PROPS["C08"] = c08
+PROPS["C09"] = c09
+PROPS["C12"] = c12
+PROPS["C15"] = c15
+PROPS["C16"] = c16
 
 
 def replay(ctx, path):
